@@ -606,7 +606,12 @@ pub fn apply_act(a: &Act, me: Option<&Node>) {
         }
         Act::GetMut(r) => with(|w| {
             if let Some(i) = w.use_root(r) {
+                let (sc, wc) = (Rc::strong_count(&w.roots[i]), Rc::weak_count(&w.roots[i]));
                 let b = Rc::get_mut(&mut w.roots[i]).is_some();
+                // exclusive access may be granted exactly to the only handle of any kind (adoptions do not count)
+                if b != (sc == 1 && wc == 0) {
+                    w.act_fails.push(format!("O12:get_mut-{}-with-strong-{}-weak-{}", if b { "granted" } else { "refused" }, sc, wc));
+                }
                 w.rets.push(b as usize);
             }
         }),
